@@ -145,7 +145,9 @@ Inductive astate := ANew (p : prog) | ASusp (st : list frame) | ARun | ADead.
 
 Inductive mode := MRun (p : prog) | MRet (v : val) | MThrow (e : exn).
 
-Inductive runres := RGoing | RQuiet | RRaised (e : exn) | RFuel.
+(** [RUnmodelled]: the run reached behaviour the machine does not predict (see [step1], a coroutine that
+    suspends while it is being closed); the correspondence check skips and counts such scenarios *)
+Inductive runres := RGoing | RQuiet | RRaised (e : exn) | RFuel | RUnmodelled.
 
 Record mstate := mkM {
   ob : objs;
@@ -240,8 +242,11 @@ Definition step1 (cur : aid) (m : mstate) (md : mode) (c : ctx) (outer : list ct
           match outer with
           | [] => SDone (set_act m a (ASusp st))
           | c' :: outer' =>
-              (* a coroutine that yields while being closed: "coroutine ignored GeneratorExit" *)
-              SCont (set_closing (set_act m a (ASusp st)) (pred (closing (ob m)))) (MThrow (ERuntime 1)) c' outer'
+              (* a coroutine that yields while being closed: CPython raises "coroutine ignored GeneratorExit"
+                 in the Python frame above the one being closed at that moment and finalises the abandoned
+                 frames when their last reference is dropped.  The machine has no Python frame boundaries,
+                 so it does not predict what follows: the run stops as [RUnmodelled]. *)
+              SDone ((set_act m a (ASusp st)) <| result := RUnmodelled |>)
           end
       | Bind p k => SCont m (MRun p) (withst (FBind k :: st)) outer
       | Catch p h => SCont m (MRun p) (withst (FCatch h :: st)) outer
